@@ -298,3 +298,40 @@ type C9FoldInner struct {
 	Task   int `json:"task"`
 	Kelvin string
 }
+
+// Method sets × addressability: a plain struct whose FIELDS have marshal/unmarshal methods on the pointer receiver
+// (C9MP, C9TP) and on the value receiver (C9MV, C9TV), embedded by value and by pointer, one and two levels deep.
+// Whether a pointer-receiver method is called depends on whether the field is addressable: a field reached through
+// an embedded POINTER always is (the dereference is addressable), a field of a struct passed by value is not.
+type C9PR struct {
+	MP C9MP
+	TP C9TP
+	MV C9MV
+	TV C9TV
+	N  int
+}
+
+type C9EmbPR struct { // promoted through an embedded pointer
+	*C9PR
+	X int
+}
+
+type C9EmbPRv struct { // promoted through an embedded value
+	C9PR
+	X int
+}
+
+type C9EmbPR2 struct { // two levels: pointer, then value
+	*C9EmbPRv
+	Y int
+}
+
+type C9EmbPR3 struct { // two levels: value, then pointer
+	C9EmbPR
+	Z int
+}
+
+type C9EmbPR4 struct { // two levels: pointer, then pointer; plus a direct field of the same kind
+	*C9EmbPR
+	Q C9MP
+}
